@@ -303,7 +303,7 @@ Section Retarget.
       change (map (fun x => reindex rho (rename_node i n x)) args) with (map retarget args).
       apply andb_true_iff in Hi as [Hi Hi4]. apply andb_true_iff in Hi as [Hi Hi3]. apply andb_true_iff in Hi as [Hi1 Hi2].
       apply andb_true_iff in Hg as [Hg1 Hg2]. apply andb_true_iff in Hn as [Hn1 Hn2].
-      rewrite is_lambdadef_retarget, Hi1, args_shape_retarget, Hi3, (IHe false Hi2 Hg1 Hn1). cbn [andb].
+      Show. rewrite is_lambdadef_retarget, Hi1, args_shape_retarget, Hi3, (IHe false Hi2 Hg1 Hn1). cbn [andb].
       eapply forallb_map_pass3; [|exact Hi4|exact Hg2|exact Hn2].
       eapply Forall_impl; [|exact H]. cbn beta. intros a Ha. apply Ha.
     - (* ENamedFun *)
